@@ -476,7 +476,14 @@ class BodyPartReader:
         # content.read() may return less than size, so we need to loop to ensure
         # we have enough data to detect the boundary.
         while len(chunk) < self._boundary_len:
-            chunk += await self._content.read(size)
+            try:
+                chunk += await self._content.read(size)
+            except BaseException:
+                # Don't lose what was already taken out of the stream.
+                with warnings.catch_warnings():
+                    warnings.filterwarnings("ignore", category=DeprecationWarning)
+                    self._content.unread_data(chunk)
+                raise
             self._content_eof += int(self._content.at_eof())
             if self._content_eof > 2:
                 raise ValueError("Reading after EOF")
